@@ -17,12 +17,16 @@ real descriptors).  The monitor states the property on the decoded bus traffic w
                                 in order, nothing else does
   c57-tx-order                  bytes accepted by `tx` reach the host in order, exactly once (host discards
                                 retransmissions by data toggle)
+  c57-tx-stuck                  ... and they do reach it when the host keeps polling: NAK_LIMIT consecutive NAKs of IN 4
+                                while the accepted, undelivered bytes contain a whole stream packet are a failure
 CLEAR_FEATURE(ENDPOINT_HALT) naming endpoint 4 is part of the host script (also with a tx packet in flight); the rx / tx
 monitors follow it as the theorems rx_in_order / tx_in_order state it: both sides restart with DATA0 when the ACK of the
 status stage arrives, buffered data stay, and a tx packet the host had accepted whose ACK the device did not see must
 come exactly once more (it is not counted as new data).
 "matrix" cases sweep request type x recipient x bRequest x direction x data stage systematically (`request_matrix`),
 before and after enumeration and between bulk transfers.
+"txack" cases (monitor only) write `tx` CONCURRENTLY with the host's handshake (AlignedHarness): the byte that completes a
+stream packet is accepted in every cycle around the host's ACK of the previous IN packet (offset sweep).
 "overflow" cases keep the rx consumer stalled while the host fills the receive FIFO and keeps writing (the packets that
 do not fit must be NAKed and must not advance the toggle; an ACKed-and-dropped packet shows up as c57-rx-order).
 """
@@ -62,9 +66,18 @@ RULE = ("cases = (a) 'matrix' sessions: ONE request matrix per run, cut into 4 (
         "other devices' transactions in between), CLEAR_FEATURE(ENDPOINT_HALT) for endpoint 3 / OUT 4 / IN 4 (a third of "
         "them right after a tx packet whose ACK the host loses or corrupts), polls of the never-fed endpoint 3, SOF, "
         "malformed packets; "
-        "'overflow' cases keep the rx consumer stalled while the host fills the FIFO and keeps writing")
+        "'overflow' cases keep the rx consumer stalled while the host fills the FIFO and keeps writing; (c) 'txack' cases "
+        "(monitor only; 4 quick / 8 widen / 24 thorough): enumeration, then 36 rounds, one per offset 1..36: a short tx "
+        "message, the host's IN transaction for it, and a second message of 1..3 bytes written CONCURRENTLY so that its "
+        "packet-completing byte (its `last` byte, or - 1 round in 3, after a pre-fill of 64-L bytes without `last` - the "
+        "byte that fills the packet to max_packet_size) is offered `offset` cycles after the end of the device's data "
+        "packet, i.e. in every cycle around the host's ACK; odd case indices with fixed bus timing (every alignment hit "
+        "exactly once), even ones with random timing; the host then polls until it has everything (<= 25 polls); "
+        "all modes: c57-tx-stuck = 20 consecutive NAKs of IN 4 while the bytes accepted by tx and not yet delivered "
+        "contain a whole stream packet")
 ASSUMPTIONS = dev_ctl.ASSUMPTIONS + [
-    "stream events happen between transactions; tx `first` is not used by the endpoint",
+    "stream events happen between transactions (theorems and model; the monitor-only 'txack' cases also write tx "
+    "concurrently with the host's handshake); tx `first` is not used by the endpoint",
     "rx_in_order: no assumption on the event history (every history of the whole-device model from reset, legal or not)",
     "tx_in_order: HostAcksWhatItGot - a handshake ACK that reaches the device while its token detector shows the IN "
     "token of endpoint 4 follows directly on a DATA answer that the host received intact (the host's reception is an "
@@ -389,6 +402,122 @@ class SerialHost(X.FullHost):
                 self.toggle[4] = t ^ 1
 
 
+# ----------------------------------------------------------------------------- tx writes aligned with the host's ACK
+TXACK_OFFSETS = 36          # the completing byte is offered 1 .. 36 cycles after the end of the device's data packet
+NAK_LIMIT = 20              # consecutive NAKs of IN 4 while a complete packet is owed: far above anything the device needs
+
+
+ALIGNED_EP = 200            # pseudo event ["produce", ALIGNED_EP + offset, bytes, last]: a write CONCURRENT with the next events
+
+
+class AlignedHarness(X.SerialHarness):
+    """SerialHarness whose `tx` stream can also be written CONCURRENTLY with the host's events (the plain `produce`
+    event runs between transactions only).  The pseudo event ["produce", ALIGNED_EP + offset, bytes, last] takes no
+    time; it schedules a write of `bytes` (`last` on the final one) that starts `offset` cycles after the device's NEXT
+    transmission (its answer to the IN token that follows) has left the bus, i.e. around the host's handshake.  Its
+    `delivered` counts the bytes the stream accepted.  Being an event it is part of the recorded stimulus."""
+
+    def __init__(self, spec, timing_rng=None):
+        super().__init__(spec, timing_rng)
+        self.job = None
+        self.jobs = []
+        self._pv = 0
+
+    async def _event(self, ctx, ev):
+        if ev[0] == "produce" and ev[1] >= ALIGNED_EP - 16:
+            res = DH.EventResult(list(ev), DH.Response(DH.RESP_NONE), ctx.get(self.address), ctx.get(self.configuration),
+                                 0, 0, self.cycle, [])
+            self.log.append(res)
+            if self.job is None:
+                self.job = {"res": res, "offset": ev[1] - ALIGNED_EP, "data": list(ev[2]), "last": int(bool(ev[3])),
+                            "at": None, "i": 0, "stall": 0, "first_cycle": None, "ev": len(self.log) - 1}
+                self.jobs.append(self.job)
+            return res
+        return await super()._event(ctx, ev)
+
+    async def _tick(self, ctx, rx=(0, 0, 0), line_state=None):
+        st = self.dev.tx
+        j = self.job
+        mine = False
+        if j is not None and j["at"] is not None and self.cycle >= j["at"]:
+            if j["i"] < len(j["data"]) and j["stall"] <= 40:
+                ctx.set(st.payload, j["data"][j["i"]])
+                ctx.set(st.valid, 1)
+                ctx.set(st.first, int(j["i"] == 0))
+                ctx.set(st.last, int(bool(j["last"]) and j["i"] == len(j["data"]) - 1))
+                mine = True
+            else:
+                ctx.set(st.valid, 0)
+                ctx.set(st.first, 0)
+                ctx.set(st.last, 0)
+                self.job = None
+        if mine:
+            if ctx.get(st.ready):
+                if j["first_cycle"] is None:
+                    j["first_cycle"] = self.cycle
+                j["i"] += 1
+                j["res"].delivered = j["i"]
+                j["stall"] = 0
+            else:
+                j["stall"] += 1
+        v = await super()._tick(ctx, rx, line_state)
+        if j is not None and j["at"] is None and self._pv and not v:
+            j["at"] = self.cycle + j["offset"]          # the device's transmission has just ended
+        self._pv = v
+        return v
+
+
+def with_jobs(log):
+    """The event log with the concurrent writes presented as plain `produce 4` entries.  They stand where the write was
+    scheduled (before the IN token), i.e. the bytes are known to the tx bookkeeping of `monitor` up to three events before
+    the stream accepted them, which no clause minds (order among the writes is kept; the liveness clause allows
+    NAK_LIMIT NAKs)."""
+    out = []
+    for r in log:
+        if r.event[0] == "produce" and r.event[1] >= ALIGNED_EP - 16:
+            r = DH.EventResult(["produce", 4, list(r.event[2]), r.event[3]], r.resp, r.address, r.configuration,
+                               r.delivered, r.cycles, r.start_cycle, r.probe)
+        out.append(r)
+    return out
+
+
+def txack_script(host, h, rounds):
+    """enumeration, then per round: a short message M1 (one stream packet), the host's IN transaction for it, and a
+    second message M2 of 1..3 bytes written so that its packet-completing byte (its `last` byte, or the byte that fills
+    the packet to max_packet_size after a pre-fill without `last`) is accepted in a swept cycle around the host's ACK;
+    the host then keeps polling until it has everything (at most NAK_LIMIT + 5 polls)."""
+    rng = host.rng
+    yield from host.enumerate()
+    given = got = 0
+    for offset, variant, ln in rounds:
+        host.tag("txack:%s:len%d" % (variant, ln))
+        m1 = rng.bytes(rng.choice([1, 2, 3, 5, 5, 17, MPS - 1]))
+        r = yield ["produce", 4, m1, 1]
+        given += r.delivered or 0
+        if variant == "fill":
+            r = yield ["produce", 4, rng.bytes(MPS - ln), 0]
+            given += r.delivered or 0
+        m2 = rng.bytes(ln)
+        # `offset` = the cycle of the packet-completing byte
+        yield ["produce", ALIGNED_EP + offset - (ln - 1), m2, int(variant == "last")]
+        given += ln
+        stuck = 0
+        while got < given and stuck < NAK_LIMIT + 5:
+            r = yield ["tok", I, host.addr, 4]
+            if r.resp.is_data:
+                yield ["hs", ACK]
+                got += len(r.resp.payload)
+                stuck = 0
+            else:
+                stuck += 1
+        if got < given:
+            host.tag("txack:gave-up")
+            return
+        if rng.chance(50):
+            yield ["tok", I, host.addr, 4]          # nothing left: NAK
+    yield from host.drain()
+
+
 # ----------------------------------------------------------------------------- monitor
 def monitor(log, spec, overflow=False):
     fails = []
@@ -418,6 +547,12 @@ def monitor(log, spec, overflow=False):
     tx_unconf = False
     tx_redo = False
     tx_last = None
+    # liveness the property implies: bytes the tx stream has accepted are eventually delivered when the host keeps polling.
+    # A packet is OWED when the accepted bytes the host does not have yet contain a whole stream packet (a `last` byte, or
+    # max_packet_size bytes since the last transfer end); NAK_LIMIT consecutive NAKs of IN 4 while one is owed = stuck.
+    tx_end = 0               # offset in tx_given of the last transfer end (`last` byte accepted)
+    tx_owed = 0              # offset in tx_given up to which the accepted bytes form whole packets
+    nak_run = 0
     for k, r in enumerate(log):
         ev, resp = r.event, r.resp
         kind = ev[0]
@@ -463,6 +598,14 @@ def monitor(log, spec, overflow=False):
                     cur["status"] = True
                 if ep == 4 and pid == I:
                     last_in4 = k if resp.is_data else None
+                    if resp.is_hs(NAK) and len(tx_host) < tx_owed and not tx_unconf and not tx_redo:
+                        nak_run += 1
+                        if nak_run == NAK_LIMIT:
+                            fail(k, "c57-tx-stuck", "the tx stream has accepted %d bytes that form whole packets, the host has "
+                                 "%d of them and keeps polling, but IN 4 was NAKed %d times in a row"
+                                 % (tx_owed, len(tx_host), nak_run))
+                    else:
+                        nak_run = 0
                 if ep == 3 and pid == I and not resp.is_hs(NAK):
                     fail(k, "c57-idle-endpoint", "the never-fed endpoint 3 did not NAK")
             else:
@@ -538,6 +681,10 @@ def monitor(log, spec, overflow=False):
                 cur.pop("state", None)
         elif kind == "produce" and ev[1] == 4:
             tx_given += list(ev[2][:r.delivered])
+            if ev[3] and r.delivered == len(ev[2]) and r.delivered:
+                tx_end = tx_owed = len(tx_given)
+            else:
+                tx_owed = max(tx_owed, tx_end + (len(tx_given) - tx_end) // MPS * MPS)
         elif kind == "consume" and ev[1] == 4:
             rx_seen += [b for (b, _f, _l) in r.delivered]
             if rx_seen != rx_host[:len(rx_seen)]:
@@ -608,7 +755,17 @@ def gen_cases(tier, rng):
         out.append({"mode": "serial", "seed": rng.u64(), "steps": steps, "k": k})
     for k in range(n_over):
         out.append({"mode": "overflow", "seed": rng.u64(), "steps": 8, "k": k})
+    # tx writes aligned with the host's ACK: every case sweeps ALL offsets (one round each, random order)
+    for k in range({"quick": 4, "widen": 8}.get(tier, 24)):
+        out.append({"mode": "txack", "seed": rng.u64(), "k": k})
     return out
+
+
+def txack_rounds(rng, k):
+    """[(offset, variant, length)]: every offset 1..TXACK_OFFSETS once, in random order; variant `last` (M2 ends with
+    `last`) 2 of 3, `fill` (M2 fills the packet to max_packet_size) 1 of 3; length 1..3 rotating with the case index"""
+    offs = rng.shuffle(list(range(1, TXACK_OFFSETS + 1)))
+    return [[o, "fill" if (o + k) % 3 == 2 else "last", 1 + (o + k // 3 + i) % 3] for i, o in enumerate(offs)]
 
 
 def run_case(desc):
@@ -621,7 +778,13 @@ def run_case(desc):
         strings = [srng.choice(["LUNA", "ACME Corp", "x"]), srng.choice(["USB-to-serial", "Serial thing with a long name 0123456789"]),
                    srng.choice(["", "12345678"])]
     spec = serial_spec(strings)
-    h = X.SerialHarness(spec["serial"], rng.fork("timing"))
+    txack = desc["mode"] == "txack"
+    if txack:
+        # k odd: fixed bus timing (no byte gaps, tx_ready always high), so that the offset sweep covers every alignment
+        # of the write and the ACK exactly once; k even: the usual random timing
+        h = AlignedHarness(spec["serial"], None if desc.get("k", 0) % 2 else rng.fork("timing"))
+    else:
+        h = X.SerialHarness(spec["serial"], rng.fork("timing"))
     if desc.get("stimulus"):
         script = [DH.decode_event(row) for row in desc["stimulus"]]
     else:
@@ -632,6 +795,11 @@ def run_case(desc):
 
             def script(_h):
                 return host.matrix_script(combos)
+        elif txack:
+            rounds = txack_rounds(rng.fork("rounds"), desc.get("k", 0))
+
+            def script(_h):
+                return txack_script(host, _h, rounds)
         else:
             def script(_h):
                 return host.script(desc["steps"])
@@ -641,7 +809,13 @@ def run_case(desc):
     if hung is not None:
         return X.hang_case(X.cfg_ints_full(spec, acm=True), h, hung, d, tags, prefix="c57")
     inputs, outputs = X.full_rows(log, legal_flag=not desc.get("stimulus"))
-    fails = monitor(log, spec, overflow=overflow)
+    if txack:
+        for j in h.jobs:
+            if j["first_cycle"] is not None and j["ev"] + 3 < len(log):
+                tags.add("txack:write-starts-%s" % ("before-the-handshake-event" if j["first_cycle"] < log[j["ev"] + 2].start_cycle
+                                                    else "in-the-handshake-event" if j["first_cycle"] < log[j["ev"] + 3].start_cycle
+                                                    else "after-the-handshake-event"))
+    fails = monitor(with_jobs(log) if txack else log, spec, overflow=overflow)
     cfails, mtags = X.cycle_monitor(h.trace, log)       # C20's monitor comes for free on this device too
     for f in cfails:
         f["sig"] = "c57-" + f["sig"]
@@ -650,5 +824,6 @@ def run_case(desc):
         tags.add("resp:%d" % r.resp.kind if r.resp.kind != DH.RESP_HS else "resp:hs%d" % r.resp.pid)
     tags |= {t for t in mtags if not t.startswith("latency")}
     tags.add("mode:" + desc["mode"])
+    # txack: monitor-only (the event-level Lean model has stream events between transactions only)
     return Case(X.cfg_ints_full(spec, acm=True), inputs, outputs, fails, sorted(tags), d, ["event…"], X.NAMES_OUT,
-                lean=True)
+                lean=not txack)
